@@ -47,6 +47,7 @@ type Obligation struct {
 	PC      []string
 	Goal    string
 	ExpectSat bool   // vacuity checks: must NOT be unsat
+	PrePC   []string // for loop-head vacuity: path condition before the loop
 	Src     string   // source text of the clause / site
 	Pos     string
 	Observe []obsTerm // terms to read from a model
